@@ -198,6 +198,8 @@ def main(tier):
     rep.assumptions += ["TLC explores the Driver/Diag design only up to the stated bounds",
                         "renderer, tokeniser of the error channel / summary and the equality test (Python) are trusted",
                         "hooks: %s" % ("file/diag/stmt events" if bld.hooks else "unavailable (black-box replay only)")]
+    from checks import ext_diagdest          # extension "diagdest": WHERE diagnostics are written (-l / -L / -olist x LISTING)
+    dd = ext_diagdest.start(tier)            # its TLC runs work in the background and are joined in the last phase
     model_checks(rep, tier)
 
     # (G) ---------------------------------------------------------------------------------------
@@ -352,6 +354,7 @@ def main(tier):
                               key={"kind": "trace-" + ev.get("a", "?"), "wrap16": w16})
             else:
                 rep.drift("%s run %s: %s" % (kind, what if kind == "corpus" else "", detail))
+    ext_diagdest.run(rep, bld, tier, dd)
     return rep.finish(
         rule="runs = every 'append a line class' transition of the Driver_Gen state graph (options x counters x "
              "pending EXPECT x earlier-file-failed; 1-2 files of <= 3 (thorough 4) line classes), each printed by TLC "
@@ -359,7 +362,9 @@ def main(tier):
              "seeded sample in the quick tier, all in the thorough tier; rendered in Z80/8051 with seed-chosen report "
              "options; the jump covers (Driver_Gen_Jump: 1-2 files, Driver_Gen_JumpX: EXPECT blocks around jump errors, "
              "cover by text) in 6502 / 68HC11 / 65C19, Driver_Gen_ExpN (what a block announces x -w x -Werror), "
-             "quick tier: seeded samples; "
+             "quick tier: seeded samples; extension diagdest (DiagDest_MC: every run of <= 3 line classes incl. LISTING / "
+             "SAVE / RESTORE x listing destination none / -l / -L / -olist, printed with LOutcome; seeded sample per "
+             "destination, Z80 / 8051); "
              "distinct = distinct (sources, argv); non-trivial = contains a line class other than ok",
         exhaustive=False)
 
@@ -368,6 +373,9 @@ def replay(path):
     v = json.load(open(os.path.join(path, "violation.json")))
     bld = build.get("hook")
     tr = v["case"]
+    if os.path.exists(os.path.join(path, "phase")) and open(os.path.join(path, "phase")).read().strip() == "diagdest":
+        from checks import ext_diagdest
+        return ext_diagdest.replay(path, tr)
     argv = open(os.path.join(path, "argv")).read().split()
     dialect = open(os.path.join(path, "dialect")).read().strip() if os.path.exists(os.path.join(path, "dialect")) else "z80"
     names = [a for a in argv if a.endswith(".asm")]
